@@ -526,6 +526,9 @@ func TestC11(t *testing.T) {
 		if i%10 == 4 {
 			c11stale(rep, seed, i/10)
 		}
+		if i%10 == 7 {
+			c11closeOrder(rep, seed, i/10)
+		}
 		if i%20 == 19 {
 			c11clients(rep, seed, i/20)
 		}
@@ -760,6 +763,77 @@ func c11stale(rep *vh.Report, seed uint64, idx int) {
 	<-n.cons.done
 	rep.Count("scenarios_stale_handle", 1)
 	rep.Distinct("stale", idx, k, a)
+}
+
+// c11closeOrder: the writer of a channel sits inside a transport Write (the link has stopped taking output) when the
+// read side of the link fails. Whatever that channel still writes must be on the wire before the channel is reported
+// closed: after the close event the transport belongs to the endpoint's next channel, and a late write of the old one
+// would land between (or inside) the frames of the new one.
+func c11closeOrder(rep *vh.Report, seed uint64, idx int) {
+	if aborted() {
+		return
+	}
+	r := vh.Sub(seed, fmt.Sprintf("c11-closeorder-%d", idx))
+	hookReset(r.U64(), true, false)
+	k := 1 + r.Intn(3)
+	n := c13start(rep, k, false, false)
+	if n == nil {
+		return
+	}
+	n.cons.prop = "C11"
+	const fam = 0xCB
+	a := r.Intn(k)
+	old := n.chans[a]
+	var closeN int64
+	n.cons.mu.Lock()
+	n.cons.onEvent = func(e *evRec, ci *chanInfo) {
+		if e.Type == "close" && e.Ch == old {
+			atomic.StoreInt64(&closeN, e.N)
+		}
+	}
+	n.cons.mu.Unlock()
+	n.trs[a].BlockWrites()
+	for i := 0; i < 3; i++ {
+		_ = n.node.WriteMessageTo(old, &MessageVfUid{Uid: uint64(fam)<<56 | uint64(i+1)})
+	}
+	waitFor(func() bool { return n.trs[a].Blocked() > 0 }, func() int64 { return int64(n.trs[a].WriteCalls()) }, 300*time.Millisecond)
+	inWrite := n.trs[a].Blocked() > 0
+	n.trs[a].FeedError(errSession)
+	time.Sleep(time.Duration(5+r.Intn(30)) * time.Millisecond)
+	// the next channel of the endpoint, if it is there already, writes something of its own
+	for _, ci := range n.cons.openChannels() {
+		if ci.Tr == n.trs[a] && ci.Ch != old {
+			_ = n.node.WriteMessageTo(ci.Ch, &MessageVfUid{Uid: uint64(fam+1)<<56 | 1})
+		}
+	}
+	n.trs[a].UnblockWrites()
+	waitFor(func() bool { return atomic.LoadInt64(&closeN) != 0 }, n.cons.nEvents, time.Second)
+	waitFor(func() bool { return false }, func() int64 { return int64(n.trs[a].NWrites()) }, 150*time.Millisecond)
+	cn := atomic.LoadInt64(&closeN)
+	rep.Eval(1)
+	if inWrite {
+		rep.Count("close_order_runs_with_writer_inside_write", 1)
+	}
+	if cn == 0 {
+		rep.Violation("what=no-close ep=custom", "a channel whose read side failed while its writer was inside Write was never reported closed after the write returned", nil)
+	}
+	for _, w := range n.trs[a].Writes() {
+		f, _, st := ref.ParseAt(w.Data, 0)
+		if st != ref.ParseOK {
+			continue
+		}
+		if uid, ok := uidOfWire(f); ok && uid>>56 == fam && cn != 0 && w.Seq > cn {
+			rep.Violation("what=write-after-close ep=custom", fmt.Sprintf("item %d addressed to a channel went to the transport after that channel's close event had been delivered (the endpoint's next channel owns the transport by then)", uid&0xFF),
+				map[string]interface{}{"write_seq": w.Seq, "close_event_seq": cn, "writer_was_inside_write": inWrite})
+			break
+		}
+	}
+	if !safeClose(rep, n.node) {
+		return
+	}
+	<-n.cons.done
+	rep.Count("scenarios_close_order", 1)
+	rep.Distinct("closeorder", idx, k, a)
 }
 
 // c11tcp: the same fan-out properties over real TCP connections (server endpoint, k loopback peers).
